@@ -75,7 +75,13 @@ P_pc(o) == [o EXCEPT !.pclass = Flip(o.pclass, "0", "+")]
 P_lay(o) == [o EXCEPT !.olayout = Append(o.olayout, O("nop"))]
 P_q(o) == [o EXCEPT !.quirks = IF Len(o.quirks) = 0 THEN <<"df">> ELSE Tail(o.quirks)]
 
-Perturbed(b) == <<P_olen(b), P_mss(b), P_sc(b), P_win(b), P_ttl(b), P_ver(b), P_pc(b), P_lay(b), P_q(b),
+\* the same window written as a raw value: that multiple of the observation's own MSS (an instance of mss*n in another form), alone and
+\* together with another MSS than the one the signature may pin (the multiple is relative to the OBSERVED MSS)
+RawWin(o, m) == IF o.wsize.k = "mss" /\ m > 0 /\ o.wsize.n * m <= 65535 THEN [o EXCEPT !.mss = m, !.wsize = W("value", o.wsize.n * m)] ELSE o
+P_raw(o) == RawWin(o, o.mss)
+P_rawmss(o) == RawWin(o, IF o.mss = 1337 THEN 1338 ELSE 1337)
+P_rawsmall(o) == RawWin(o, 64)
+Perturbed(b) == <<P_raw(b), P_rawmss(b), P_rawsmall(b), P_olen(b), P_mss(b), P_sc(b), P_win(b), P_ttl(b), P_ver(b), P_pc(b), P_lay(b), P_q(b),
                   P_olen(P_mss(b)), P_olen(P_sc(b)), P_ttl(P_olen(b)), P_olen(P_mss(P_sc(b))), P_win(P_ttl(P_mss(b))),
                   P_ver(P_olen(b)), P_q(P_mss(b))>>
 
